@@ -15,7 +15,7 @@ pub const CHECK: Check = Check { id: "C19", level: "exploration", flavours: &["p
 
 pub const SIG_IKM: &str = "keyderive-ikm-not-clamped";
 
-const RULE: &str = "cases = (seed string: unicode / empty / long; parent key form: generated with --seed (stored bytes unclamped), DER with \
+const RULE: &str = "cases = (seed string: unicode / empty / long / with line terminators, tabs or blanks at either end; parent key form: generated with --seed (stored bytes unclamped), DER with \
 already-clamped bytes, Ed25519 DER, PEM wrapping; list of 1..4 derivation paths incl. repeated and empty ones), run through \
 `mlar keygen --seed` and `mlar keyderive`. Oracle = the README algorithm re-implemented in the harness (SHA-512 -> own \
 ChaCha20 block function -> 32 bytes; HKDF-SHA512 salt 'PATH DERIVATION', ikm = clamped secret, info = path), compared with \
@@ -203,12 +203,16 @@ fn seed_str() -> impl Strategy<Value = String> {
         3 => "\\PC{1,12}",
         1 => "[a-z]{300,600}",
         1 => Just("TESTSEED".to_string()),
+        // line terminators, tabs and blanks at either end or inside (a seed pasted from a file, a path with a newline)
+        2 => "[ -~]{0,12}[\n\r\t ]{1,2}",
+        1 => "[\n\r\t ]{1,2}[ -~]{0,12}",
+        1 => "[ -~]{1,6}[\n\r\t][ -~]{1,6}",
     ]
     .prop_map(|s| s.replace('\0', "0"))
 }
 
 fn path_str() -> impl Strategy<Value = String> {
-    prop_oneof![2 => Just(String::new()), 4 => "[ -~]{1,16}", 2 => "\\PC{1,8}", 1 => Just("App X".to_string())].prop_map(|s| s.replace('\0', "0"))
+    prop_oneof![2 => Just(String::new()), 4 => "[ -~]{1,16}", 2 => "\\PC{1,8}", 1 => Just("App X".to_string()), 1 => "[ -~]{0,8}[\n\r\t ]{1,2}", 1 => "[\n\r\t ][ -~]{0,8}"].prop_map(|s| s.replace('\0', "0"))
 }
 
 fn case() -> impl Strategy<Value = Case> {
